@@ -239,4 +239,96 @@ theorem readAll_eq (q : Quirks) (c : Codec) (s : Bytes) :
     rw [hb]
     simp only [readBlock_rest_lt q c s payload rest hb, dite_true]
 
+/-! ### the repaired reader reports a clean end only at the true end of the input -/
+
+theorem gzBody_ne_eof (c : Codec) (buf : Bytes) : gzBody c buf ≠ .error .eof := by
+  generalize hn : buf.length = n
+  induction n using Nat.strongRecOn generalizing buf with
+  | ind n ih =>
+    intro h
+    rw [gzBody] at h
+    split at h
+    · simp at h
+    · rename_i payload used hinf
+      split at h
+      · simp at h
+      · rename_i h8
+        split at h
+        · simp at h
+        · split at h
+          · simp at h
+          · rename_i e hne hh
+            injection h with h
+            exact hne (by rw [h])
+          · rename_i hdr hl hh
+            split at h
+            · rename_i e hrec
+              injection h with h
+              have hlt : (((buf.drop used).drop 8).drop hl).length < n := by
+                simp only [List.length_drop] at h8 ⊢
+                omega
+              exact ih _ hlt _ rfl (by rw [hrec, h])
+            · simp at h
+
+theorem readMember_repaired_eof (c : Codec) (s : Bytes) (h : readMember .repaired c s = .error .eof) : s = [] := by
+  unfold readMember at h
+  split at h
+  · rename_i e he
+    injection h with h
+    subst h
+    exact (readHeader_eof_iff _ _).1 he
+  · split at h
+    · simp at h
+    · split at h
+      · simp [Quirks.repaired] at h
+      · split at h
+        · simp at h
+        · split at h
+          · simp at h
+          · split at h <;> simp [Quirks.repaired] at h
+
+theorem readBlock_repaired_eof (c : Codec) (s : Bytes) (h : readBlock .repaired c s = .error .eof) : s = [] := by
+  unfold readBlock at h
+  split at h
+  · rename_i e he
+    injection h with h
+    subst h
+    exact readMember_repaired_eof c s he
+  · split at h
+    · rename_i e he
+      injection h with h
+      subst h
+      exact absurd he (gzBody_ne_eof c _)
+    · split at h <;> simp at h
+
+/-- the whole input is a sequence of members, each framed by its BSIZE and verified -/
+inductive FullyFramed (c : Codec) : Bytes → Bytes → Prop where
+  | nil : FullyFramed c [] []
+  | cons {s payload data : Bytes} {f : Framed} :
+      readMember .repaired c s = .ok f → Verified c f.body payload → payload.length ≤ MaxBlockSize →
+      FullyFramed c f.rest data → FullyFramed c s (payload ++ data)
+
+/-- For EVERY byte string: if the repaired reader ends cleanly, the entire input — to its last byte —
+was consumed as back-to-back members, each framed by its own BSIZE and each passing CRC-32/ISIZE
+verification, and the data returned is exactly theirs. -/
+theorem clean_end_fully_framed (c : Codec) (s : Bytes) (h : (readAll .repaired c s).2 = .eof) :
+    FullyFramed c s (readAll .repaired c s).1 := by
+  generalize hn : s.length = n
+  induction n using Nat.strongRecOn generalizing s with
+  | ind n ih =>
+    rw [readAll_eq] at h ⊢
+    split at h
+    · rename_i e he
+      simp only at h
+      subst h
+      have := readBlock_repaired_eof c s he
+      subst this
+      exact FullyFramed.nil
+    · rename_i payload rest hb
+      have hlt := readBlock_rest_lt .repaired c s payload rest hb
+      obtain ⟨f, hf, hr, hv, hfit⟩ := readBlock_ok_verified .repaired c s payload rest hb
+      simp only at h ⊢
+      subst hr
+      exact FullyFramed.cons hf hv hfit (ih _ (by omega) _ h rfl)
+
 end Hts.Lemmas.BgzfBytes
